@@ -58,6 +58,9 @@ def abstract_charts():
                         continue
                     notes = [(F(1 + c), c, None if c % 2 else F(1, 2)) for c in range(keys)] if lay == "all" else [(b, c if c >= 0 else keys - 1, l) for b, c, l in lay]
                     out.append(dict(keys=keys, t0=t0, bpms=bl, notes=notes, name=f"{keys}k/t0={t0}/{bn}/{ln}"))
+                    if keys == 4 and bn != "one" and ln in ("holds", "across"):
+                        # the same chart with a 3/4 meter on the later timing points of the osu source (times in ms are unaffected)
+                        out.append(dict(keys=keys, t0=t0, bpms=bl, notes=notes, name=f"{keys}k/t0={t0}/{bn}/{ln}/meter3", meter=3))
     return out
 
 
@@ -88,7 +91,7 @@ def src_osu(ch):
     T, segs = times(ch)
     d = ro.default_doc()
     d["keys"] = ch["keys"]
-    d["tps"] = [dict(time=str(int(s[1])), bl=repr(float(F(60000) / s[2])), meter=4, ss=1, si=0, vol=50, un=1, fx=0) for s in segs]
+    d["tps"] = [dict(time=str(int(s[1])), bl=repr(float(F(60000) / s[2])), meter=4 if i == 0 else ch.get("meter", 4), ss=1, si=0, vol=50, un=1, fx=0) for i, s in enumerate(segs)]
     d["tps"].append(dict(time=str(int(T(F(3)))), bl="-50", meter=4, ss=1, si=0, vol=50, un=0, fx=0))
     d["objs"] = []
     for b, c, l in ch["notes"]:
@@ -120,6 +123,20 @@ SM_TYPE = {4: "dance-single", 7: "kb7-single", 6: "dance-solo", 8: "dance-double
 
 
 def src_sm(ch):
+    charts_ = []
+    for vi, v in enumerate(variants(ch, "sm")):
+        charts_.append(dict(type=SM_TYPE[ch["keys"]], desc=f"d{vi}", diff=["Hard", "Easy"][vi], meter=str(7 - vi), radar="0,0,0,0,0", measures=_sm_measures(v)))
+    doc = dict(
+        header=dict(TITLE="t", ARTIST="a", CREDIT="c", MUSIC="m.ogg", SAMPLESTART="1.000", SAMPLELENGTH="10.000", SELECTABLE="YES"),
+        offset=f"{-ch['t0'] / 1000:.3f}",
+        bpms=[(f"{float(b):.3f}", f"{float(v):.3f}") for b, v in ch["bpms"]],
+        stops="empty",
+        charts=charts_,
+    )
+    return rs.render(doc).split("\n")
+
+
+def _sm_measures(ch):
     measures = {}
     for b, c, l in ch["notes"]:
         evs = [(b, "1")] if l is None else [(b, "2"), (b + l, "3")]
@@ -136,14 +153,7 @@ def src_sm(ch):
         for (pos, c) in cells:
             R = R * pos.denominator // math.gcd(R, pos.denominator)
         ms.append(dict(rows=R, cells={(int(pos * R), c): s for (pos, c), s in cells.items()}))
-    doc = dict(
-        header=dict(TITLE="t", ARTIST="a", CREDIT="c", MUSIC="m.ogg", SAMPLESTART="1.000", SAMPLELENGTH="10.000", SELECTABLE="YES"),
-        offset=f"{-ch['t0'] / 1000:.3f}",
-        bpms=[(f"{float(b):.3f}", f"{float(v):.3f}") for b, v in ch["bpms"]],
-        stops="empty",
-        charts=[dict(type=SM_TYPE[ch["keys"]], desc="d", diff="Hard", meter="7", radar="0,0,0,0,0", measures=ms)],
-    )
-    return rs.render(doc).split("\n")
+    return ms
 
 
 def src_bms(ch):
@@ -174,6 +184,12 @@ def src_bms(ch):
 
 
 def src_ojn(ch):
+    h = dict(rj.HEADER_DEFAULT)
+    h["bpm"] = float(ch["bpms"][0][1])
+    return rj.encode(dict(header=h, diffs=[_ojn_packages(v) for v in variants(ch, "o2j")]))
+
+
+def _ojn_packages(ch):
     import math
 
     groups = {}
@@ -195,12 +211,22 @@ def src_ojn(ch):
         for p, v in evs:
             slots[int(p * n)] = v
         pk.append(dict(measure=m, channel=chn, slots=slots))
-    h = dict(rj.HEADER_DEFAULT)
-    h["bpm"] = float(ch["bpms"][0][1])
-    return rj.encode(dict(header=h, diffs=[pk, pk, pk]))
+    return pk
+
+
+def variants(ch, game):
+    """The charts a source file of `game` carries: O2Jam files have three difficulties, StepMania files here two charts,
+    each different (shifted by one measure / truncated) so that a converter reading the wrong chart is visible."""
+    if game == "o2j":
+        return [ch, dict(ch, notes=[(b + 4, c, l) for b, c, l in ch["notes"]]), dict(ch, notes=ch["notes"][:2])]
+    if game == "sm":
+        return [ch, dict(ch, notes=[(b + 4, c, l) for b, c, l in ch["notes"]][::-1])]
+    return [ch]
 
 
 def sources_for(ch):
+    if ch.get("meter"):
+        return ["osu"]
     out = []
     if ch["keys"] in (4, 7):
         out += ["osu", "qua"]
@@ -338,7 +364,19 @@ def check(ci, g, name, ctx):
         ctx.check("convert.raises", False, site=dict(site, exc=type(e).__name__), case=case, observed=f"{type(e).__name__}: {e}"[:300], expected="converted chart")
         return
     ctx.passed("convert.raises")
-    t = res[0] if isinstance(res, list) else res
+    results = res if isinstance(res, list) else [res]
+    vs = variants(ch, g)
+    if name == "O2JToSM_merge":
+        results = [results[0]]
+    if tg == "sm" and len(results) == 1 and hasattr(results[0], "maps") and len(results[0].maps) > 1:
+        ctx.extra["multi_chart_sm_result_first_chart_only"] += 1
+    if not ctx.check("charts.count", len(results) == len(vs), site=site, case=case, observed=len(results), expected=len(vs)):
+        return
+    for vi, (t, v) in enumerate(zip(results, vs)):
+        judge_target(ctx, tg, t, v, denote(v), g, shift, dict(site, chart=vi) if len(vs) > 1 else site, dict(case, chart_index=vi))
+
+
+def judge_target(ctx, tg, t, ch, den, g, shift, site, case):
     ctx.transition()
     try:
         notes, tempo, probs, tkeys = parse_target(tg, t)
@@ -355,9 +393,8 @@ def check(ci, g, name, ctx):
     slow = min(b for _, b in den["tempo"])
     tol = 1.0 + (60000.0 / slow / 192.0 if "sm" in (g, tg) or "bms" in (g, tg) else 0.0)
     base_s = den["tempo"][0][0] if tg == "bms" else 0.0
-    base_t = 0.0
     exp = sorted((tt - base_s, c + shift, l) for tt, c, l in den["notes"])
-    got = sorted((tt - base_t, c, l) for tt, c, l in notes)
+    got = sorted((tt, c, l) for tt, c, l in notes)
     ctx.outcome(tuple((round(a, 3), b) for a, b, _ in got))
     ok = len(got) == len(exp) and all(a[1] == b[1] and (a[2] is None) == (b[2] is None) and abs(a[0] - b[0]) <= tol and (a[2] is None or abs(a[2] - b[2]) <= 2 * tol) for a, b in zip(sorted(got, key=lambda x: (x[1], x[0])), sorted(exp, key=lambda x: (x[1], x[0]))))
     ctx.check("objects", ok, site=site, case=case, observed=got[:8], expected=exp[:8])
